@@ -447,7 +447,59 @@ def classify_amal(f, case):
     return None
 
 
+def h_by_way_of_disk(ctx, case):
+    """transpose_by_way_of_disk (used by the marker arrays): the
+    transposed pattern, and nothing left in the caller's scratch
+    directory"""
+    import os
+    nr, nc = case['shape']
+    env = Env(ctx)
+    dense = dense_from_bits(ctx, 'x', nr, nc)
+    indptr, indices, _ = to_csc(dense)
+    patch(M, 'max', FloorModel(ctx))
+    scratch = env.path('scratch')
+    os.makedirs(scratch)
+    with open(os.path.join(scratch, 'other_run.txt'), 'w') as f:
+        f.write('belongs to another run')
+    try:
+        oip, oix = M.transpose_by_way_of_disk(
+            indices=np.array(indices, dtype=np.int64),
+            indptr=np.array(indptr, dtype=np.int64),
+            indices_max=nr, max_gb=1, tmp_dir=scratch)
+    except Exception as e:
+        ctx.exception(e)
+        return 'EXC ' + type(e).__name__
+    ctx.reach('transposed')
+    oip = [int(v) for v in oip]
+    oix = [int(v) for v in oix]
+    want = [[c for c in range(nc) if dense[r][c] is not None]
+            for r in range(nr)]
+    ok = len(oip) == nr + 1 and oip[0] == 0
+    ctx.check(ok, 'pointer array has one slot per row and starts at 0')
+    if ok:
+        for r in range(nr):
+            ctx.check(oix[oip[r]:oip[r + 1]] == want[r],
+                      'row r of the transpose lists the columns that '
+                      'stored an entry in row r, in order')
+    left = sorted(os.listdir(scratch))
+    ctx.check(left == ['other_run.txt'], 'nothing of the call left in the '
+              "scratch directory, other runs' files untouched: "
+              f"{[n.rsplit('_', 1)[0] + '_*' if n != 'other_run.txt' else n for n in left]}")
+    return 'ok'
+
+
+BY_WAY = dict(
+    setup=setup_tr, cases=[{'shape': [2, 2]}],
+    thorough_cases=[{'shape': [2, 3]}, {'shape': [3, 2]}],
+    funcs=['csc_to_csr.transpose_by_way_of_disk',
+           'transpose_sparse_matrix_on_disk'],
+    stubs=['h5py -> model; block-size floors -> solver-chosen block sizes'],
+    bounds='every pattern of 2x2 (thorough 2x3, 3x2) incl. the matrix '
+           'without stored entries; every block size',
+    expect_reach=['transposed'])
+
 HARNESSES = [
+    Harness('transpose_by_way_of_disk', h_by_way_of_disk, **BY_WAY),
     Harness('transpose_on_disk', h_transpose, setup=setup_tr,
             cases=[{'shape': [2, 3]}, {'shape': [3, 2]},
                    {'shape': [2, 2], 'slice': True}],
